@@ -442,6 +442,7 @@ fn history_c04<Q: QT>(r: &mut Rng, maxlen: u64, st: &mut Stats, sketch: &Sketch)
     let mut nontrivial = false;
     st.histories += 1;
     let opname = format!("{}::accumulate", Q::NAME);
+    rt::doing_set(&opname, &encode_events(&evs));
     for i in 0..len {
         let mut e = if r.chance(1, 64) && i > 0 {
             Ev { kind: K_CLEAR, p: vec![] }
@@ -486,6 +487,7 @@ fn history_c04<Q: QT>(r: &mut Rng, maxlen: u64, st: &mut Stats, sketch: &Sketch)
         }
         // ---- real code
         evs.push(e.clone());
+        rt::doing_push(&encode_events(std::slice::from_ref(&e)));
         rt::enter(slot, usize::MAX - 4, evs.len() as u64, e.kind as u64, e.p.first().copied().unwrap_or(0));
         let res = rt::guarded(|| apply(&mut q, &e));
         rt::leave(slot);
@@ -608,38 +610,14 @@ fn history_json<Q: QT>(evs: &[Ev], q: &Q) -> J {
         .with("final_to_posit", J::hex(q.i_to_posit().tb()))
 }
 
-/// one C12 walk: reach states with accumulate events, judge the state operations
-fn history_c12<Q: QT>(r: &mut Rng, maxlen: u64, st: &mut Stats, sketch: &Sketch) {
-    let slot = rt::my_slot();
+/// the C12 judgement of one state operation on the state `q` is in (relative to the exact value
+/// decoded from its bit image): None = as required, Some((op, got, want)) otherwise
+pub fn check_state_op<Q: QT>(q: &Q, which: u64) -> Option<(String, String, String)> {
     let f = <Q::P as PT>::F;
-    let len = 1 + r.below(maxlen);
-    let mut q = Q::init();
-    let mut evs: Vec<Ev> = Vec::new();
-    st.histories += 1;
-    if r.chance(1, 3) {
-        q = Q::from_limbs_le(&hostile_state::<Q>(r));
-        st.fast_forwarded += 1;
-    }
-    for _ in 0..len {
-        // reach a new state
-        let nar_ok = r.chance(1, 64);
-        let e = gen_event::<Q>(r, &evs, nar_ok);
-        evs.push(e.clone());
-        rt::enter(slot, usize::MAX - 5, evs.len() as u64, e.kind as u64, 0);
-        let res = rt::guarded(|| apply(&mut q, &e));
-        rt::leave(slot);
-        if res.is_err() {
-            return; // C04 / C16 report panics of accumulate; nothing to judge here
-        }
-        st.events += 1;
-        let state = q.limbs_le();
-        let s = Val::from_fixed(&state, Q::TOTAL_BITS, Q::FRAC_BITS);
-        let which = r.below(5);
-        let opname = |n: &str| format!("{}::{}", Q::NAME, n);
-        st.cov.evaluations += 1;
-        st.c12_checks[which as usize] += 1;
-        rt::enter(slot, usize::MAX - 5, evs.len() as u64, 100 + which, state[0]);
-        let verdict: Result<Option<(String, String, String)>, String> = rt::guarded(|| match which {
+    let state = q.limbs_le();
+    let s = Val::from_fixed(&state, Q::TOTAL_BITS, Q::FRAC_BITS);
+    let opname = |n: &str| format!("{}::{}", Q::NAME, n);
+    match which {
             0 => {
                 // neg: s -> -s exactly (NaR stays NaR, zero stays zero)
                 let mut q2 = q.dup();
@@ -718,7 +696,53 @@ fn history_c12<Q: QT>(r: &mut Rng, maxlen: u64, st: &mut Stats, sketch: &Sketch)
                 }
                 None
             }
-        });
+        
+    }
+}
+
+/// one C12 walk: reach states with accumulate events, judge the state operations
+fn history_c12<Q: QT>(r: &mut Rng, maxlen: u64, st: &mut Stats, sketch: &Sketch) {
+    let slot = rt::my_slot();
+    let f = <Q::P as PT>::F;
+    let len = 1 + r.below(maxlen);
+    let mut q = Q::init();
+    let mut evs: Vec<Ev> = Vec::new();
+    st.histories += 1;
+    let mut fast_forwarded = false;
+    if r.chance(1, 3) {
+        let start = hostile_state::<Q>(r);
+        q = Q::from_limbs_le(&start);
+        evs.push(Ev { kind: K_STATE, p: start });
+        st.fast_forwarded += 1;
+        fast_forwarded = true;
+    }
+    for step in 0..len {
+        // reach a new state (a fast-forwarded start state is judged as it is first)
+        if !(step == 0 && fast_forwarded) {
+            let nar_ok = r.chance(1, 64);
+            let e = gen_event::<Q>(r, &evs, nar_ok);
+            evs.push(e.clone());
+            rt::doing_set(&format!("{}::accumulate", Q::NAME), &encode_events(&evs));
+            rt::enter(slot, usize::MAX - 5, evs.len() as u64, e.kind as u64, 0);
+            let res = rt::guarded(|| apply(&mut q, &e));
+            rt::leave(slot);
+            if res.is_err() {
+                return; // C04 / C16 report panics of accumulate; nothing to judge here
+            }
+            st.events += 1;
+        }
+        let state = q.limbs_le();
+        let s = Val::from_fixed(&state, Q::TOTAL_BITS, Q::FRAC_BITS);
+        let which = r.below(5);
+        let opname = |n: &str| format!("{}::{}", Q::NAME, n);
+        st.cov.evaluations += 1;
+        st.c12_checks[which as usize] += 1;
+        {
+            let names = ["neg", "clear", "from_bits(to_bits)", "into_two_posits", "into_three_posits"];
+            rt::doing_set(&format!("{}::{}", Q::NAME, names[which as usize]), &state);
+        }
+        rt::enter(slot, usize::MAX - 5, evs.len() as u64, 100 + which, state[0]);
+        let verdict: Result<Option<(String, String, String)>, String> = rt::guarded(|| check_state_op(&q, which));
         rt::leave(slot);
         let names = ["neg", "clear", "from_bits(to_bits)", "into_two_posits", "into_three_posits"];
         match verdict {
@@ -927,4 +951,36 @@ pub fn replay_history(qname: &str, words: &[u64]) -> bool {
         "Q16E1" => go::<Q16E1>(words),
         _ => go::<Q32E2>(words),
     }
+}
+
+
+/// replay one C12 state operation on a recorded state ("Q16E1::neg" etc., words = the bit image)
+pub fn replay_state_op(name: &str, words: &[u64]) -> Option<bool> {
+    let (qn, opn) = name.split_once("::")?;
+    let which = ["neg", "clear", "from_bits(to_bits)", "into_two_posits", "into_three_posits"]
+        .iter()
+        .position(|n| *n == opn)? as u64;
+    fn go<Q: QT>(which: u64, words: &[u64]) -> bool {
+        let q = Q::from_limbs_le(words);
+        match rt::guarded(|| check_state_op(&q, which)) {
+            Ok(None) => {
+                println!("REPLAY state operation as required");
+                false
+            }
+            Ok(Some((op, got, want))) => {
+                println!("REPLAY {} got={} want={}", op, got, want);
+                true
+            }
+            Err(m) => {
+                println!("REPLAY got=PANIC {}", m);
+                true
+            }
+        }
+    }
+    Some(match qn {
+        "Q8E0" => go::<Q8E0>(which, words),
+        "Q16E1" => go::<Q16E1>(which, words),
+        "Q32E2" => go::<Q32E2>(which, words),
+        _ => return None,
+    })
 }
